@@ -442,6 +442,31 @@ def protocol_cases():
         p.dataReceived(b'\0' + b'FOO ' + b'x' * 16380 + b'\r\n')
         if t.disconnecting or not t.value().startswith(b'ERROR'):
             return 'a line of exactly 16384 bytes: closed=%r replies %r' % (t.disconnecting, t.value()[:40])
+        # an acceptable client may pipeline: its handshake, BEGIN and its first messages - far more than 16 KiB of them - in ONE
+        # read (or cut anywhere); what follows BEGIN is message data, not an authentication line
+        from txdbus import message as _msg
+        hello = _msg.MethodCallMessage('/org/freedesktop/DBus', 'Hello', interface='org.freedesktop.DBus', destination='org.freedesktop.DBus').rawMessage
+        big = _msg.SignalMessage('/o', 'S', 'org.e.I', signature='ay', body=[bytearray(b'x' * 40000)]).rawMessage
+        stream = b'\0AUTH ANONYMOUS\r\nBEGIN\r\n' + hello + big
+        for how, cuts in (('one read', []), ('nul byte first', [1]), ('cut inside BEGIN', [19]), ('cut after BEGIN', [24]), ('8 KiB reads', list(range(8192, len(stream), 8192)))):
+            b_ = bus.Bus()
+
+            class FB:
+                bus = b_
+            p = bus.BusProtocol()
+            p.factory = FB
+            t = StringTransport()
+            p.makeConnection(t)
+            prev = 0
+            try:
+                for c in cuts + [len(stream)]:
+                    p.dataReceived(stream[prev:c])
+                    prev = c
+            except Exception as e:
+                return 'pipelined handshake + %d bytes of messages (%s) raised %s: %s' % (len(hello) + len(big), how, type(e).__name__, e)
+            if not p._authenticated or t.disconnecting or getattr(p, 'uniqueName', None) is None:
+                return 'pipelined handshake + %d bytes of messages (%s): authenticated=%r closed=%r named=%r, replies %r' % (
+                    len(hello) + len(big), how, p._authenticated, t.disconnecting, getattr(p, 'uniqueName', None), t.value()[:60])
         # acceptable credentials are accepted: ANONYMOUS, and EXTERNAL with peer credentials
         for lines, creds in (([b'AUTH ANONYMOUS', b'BEGIN'], None), ([b'AUTH EXTERNAL 30', b'DATA', b'BEGIN'], (1, 0, 0))):
             p = bus.BusProtocol()
@@ -535,7 +560,7 @@ def bounded(tier, seed):
                 if f:
                     return n, f, {'lines': [l.decode('latin-1') for l in lines], 'script': list(script)}
     rnd = random.Random(seed)
-    for _ in range(3000 if tier == 'thorough' else 80):
+    for _ in range(30000 if tier == 'thorough' else 80):
         lines = [rnd.choice(ALPHABET) for _ in range(rnd.randrange(4, 12))]
         script = rnd.choice(SCRIPTS)
         total = 1 + sum(len(l) + 2 for l in lines)
